@@ -44,10 +44,20 @@ def main():
     except core.InfraError as e:
         print('INFRA: %s' % e)
         return 2
-    except Exception:
-        traceback.print_exc()
-        print('INFRA: harness exception')
-        return 2
+    except Exception as e:
+        # The harness itself fell over while driving the implementation (a changed implementation may return shapes or
+        # raise errors no stream anticipated).  That is not a verdict of "held": the correspondence could not be
+        # established, so it is reported as a broken correspondence (VIOLATION ... no-failing-input-found unless a
+        # failing input was already recorded), never as exit 2.
+        signal.alarm(0)
+        tb = traceback.format_exc()
+        print(tb)
+        if replay:
+            print('INFRA: harness exception during replay')
+            return 2
+        ctx.broke('correspondence', '%s harness could not complete against this implementation' % prop,
+                  dict(exception='%s: %s' % (type(e).__name__, str(e)[:300]), traceback=tb[-1500:]))
+        return ctx.finish()
     signal.alarm(0)
     return ctx.finish()
 
